@@ -1,6 +1,668 @@
 import RzmqModel.Model.Engine
 import RzmqModel.Proofs.Wire
-/-! Helper lemmas for the engine model. -/
+/-! Helper lemmas for the engine model (C04, C07). -/
 namespace Rzmq
+
+-- ---------------------------------------------------------------------------------------------
+-- wire level
+-- ---------------------------------------------------------------------------------------------
+
+theorem needMore_bounded' (m : Nat) (src : List UInt8) (h : decodeBuffer (m : Int) src = .needMore) :
+    src.length < 9 + m := by
+  cases src with
+  | nil => simp only [List.length_nil]; omega
+  | cons fl tl =>
+    simp only [decodeBuffer] at h
+    generalize hhdr : (if isLong fl then Gen.bufferLongHdr else Gen.bufferShortHdr) = hdr at h
+    have hh : hdr ≤ 9 := by
+      rw [← hhdr]; simp only [Gen.bufferLongHdr, Gen.bufferShortHdr]; split <;> omega
+    simp only [List.length_cons]
+    by_cases h1 : tl.length + 1 < hdr
+    · omega
+    · rw [if_neg h1] at h
+      by_cases h2 : exceeds (m : Int) (rawSize fl tl) = true
+      · rw [if_pos h2] at h; cases h
+      · rw [if_neg h2] at h
+        by_cases h3 : tl.length + 1 - hdr < rawSize fl tl
+        · simp only [exceeds, Int.toNat_natCast, Int.natCast_nonneg, decide_true, Bool.true_and,
+            decide_eq_true_eq] at h2
+          omega
+        · rw [if_neg h3] at h; cases h
+
+theorem exceeds_succ (m : Nat) : exceeds (m : Int) (m + 1) = true := by
+  simp [exceeds]
+
+theorem decodeSliceLike_ne_panic (a b c : Nat) (max : Int) (src : List UInt8) :
+    decodeSliceLike a b c max src ≠ .panic := by
+  unfold decodeSliceLike
+  split
+  · simp
+  · split
+    · simp
+    · simp only
+      repeat' split
+      all_goals simp
+
+
+-- ---------------------------------------------------------------------------------------------
+-- READY metadata
+-- ---------------------------------------------------------------------------------------------
+
+theorem UInt8_ofNat_eq_of_mod (n : Nat) (a : UInt8) (h : n % 256 = a.toNat) : UInt8.ofNat n = a := by
+  apply UInt8.toNat_inj.mp
+  simp only [UInt8.toNat_ofNat']
+  exact h
+
+theorem be32_ofBe4 (a b c d : UInt8) : be32 (ofBe [a, b, c, d]) = [a, b, c, d] := by
+  have ha := a.toNat_lt; have hb := b.toNat_lt; have hc := c.toNat_lt; have hd := d.toNat_lt
+  simp only [ofBe, be32, List.foldl_cons, List.foldl_nil]
+  rw [UInt8_ofNat_eq_of_mod _ a (by omega), UInt8_ofNat_eq_of_mod _ b (by omega),
+    UInt8_ofNat_eq_of_mod _ c (by omega), UInt8_ofNat_eq_of_mod _ d (by omega)]
+
+theorem be32_ofBe_take4 (l : List UInt8) (h : 4 ≤ l.length) : be32 (ofBe (l.take 4)) = l.take 4 := by
+  match l, h with
+  | a :: b :: c :: d :: r, _ => simp only [List.take_succ_cons, List.take_zero, be32_ofBe4]
+
+theorem parseProps_sound' (fuel : Nat) : ∀ (body : Bytes) (ps : Props), parseProps fuel body = some ps →
+    encodeProps ps = body ∧ ∀ p ∈ ps, validUtf8 p.1 = true ∧ p.1.length ≤ 255 := by
+  induction fuel with
+  | zero =>
+    intro body ps h
+    cases body with
+    | nil => simp only [parseProps, Option.some.injEq] at h; subst h; simp [encodeProps]
+    | cons x xs => simp [parseProps] at h
+  | succ fuel ih =>
+    intro body ps h
+    cases body with
+    | nil => simp only [parseProps, Option.some.injEq] at h; subst h; simp [encodeProps]
+    | cons nl rest =>
+      simp only [parseProps] at h
+      split at h; · cases h
+      rename_i h1
+      split at h; · cases h
+      rename_i h2
+      split at h; · cases h
+      rename_i h3
+      split at h; · cases h
+      rename_i h4
+      split at h; · cases h
+      rename_i ps' hrec
+      simp only [Option.some.injEq] at h
+      subst h
+      obtain ⟨ihe, ihv⟩ := ih _ _ hrec
+      have hnl := nl.toNat_lt
+      have hlen : (List.take nl.toNat rest).length = nl.toNat := by
+        simp only [List.length_take]; omega
+      constructor
+      · simp only [encodeProps, hlen, ihe]
+        rw [if_neg (by omega)]
+        have hvl : (List.take (ofBe (List.take 4 (List.drop nl.toNat rest)))
+            (List.drop 4 (List.drop nl.toNat rest))).length
+            = ofBe (List.take 4 (List.drop nl.toNat rest)) := by
+          simp only [List.length_take]; omega
+        rw [hvl, be32_ofBe_take4 _ (by omega), UInt8.ofNat_toNat]
+        simp only [List.cons_append, List.append_assoc, List.take_append_drop]
+      · intro p hp
+        simp only [List.mem_cons] at hp
+        rcases hp with rfl | hp
+        · simp only [hlen]
+          refine ⟨?_, by omega⟩
+          simpa using h2
+        · exact ihv p hp
+
+-- ---------------------------------------------------------------------------------------------
+-- `step`: termination measure
+-- ---------------------------------------------------------------------------------------------
+
+def mechBudget : Mech → Nat
+  | .null => 0
+  | .plain .clientSendHello => 1
+  | .plain .serverExpectHello => 1
+  | .plain .serverSendWelcome => 1
+  | .plain _ => 0
+  | .abs _ _ n => 8 - n
+
+def stepMeasure (s : Eng) : Nat :=
+  match s.phase with
+  | .closed => 0
+  | .greeting => s.acc.length + (if s.revisionSent then 0 else 1) + (if s.version.isNone then 1 else 0) + 11
+  | .security => s.acc.length + mechBudget s.mech + 2
+  | .ready => s.acc.length + 1
+  | .v2Identity => s.acc.length + (if s.v2IdentitySent then 0 else 1) + 1
+  | .data => s.acc.length + 1
+
+theorem mechBudget_le (m : Mech) : mechBudget m ≤ 8 := by
+  unfold mechBudget; split <;> omega
+
+theorem produceToken_budget {spec : AbsSpec} (hw : WellBehaved spec) {cfg : Cfg} {m m' : Mech} {t : Bytes}
+    (h : produceToken spec cfg m = (some t, m')) : mechBudget m' < mechBudget m := by
+  unfold produceToken at h
+  split at h
+  · simp only [Prod.mk.injEq] at h; obtain ⟨-, rfl⟩ := h; simp [mechBudget]
+  · simp only [Prod.mk.injEq] at h; obtain ⟨-, rfl⟩ := h; simp [mechBudget]
+  · rename_i k hh n
+    split at h
+    · rename_i tk hp
+      simp only [Prod.mk.injEq] at h; obtain ⟨-, rfl⟩ := h
+      have : n < 8 := by
+        apply Nat.lt_of_not_le
+        intro hn
+        rw [hw k cfg.isServer hh n hn] at hp
+        cases hp
+      simp only [mechBudget]; omega
+    · simp at h
+  · simp at h
+
+theorem processToken_budget {spec : AbsSpec} {cfg : Cfg} {m m' : Mech} {tok : Bytes}
+    (h : processToken spec cfg m tok = .ok m') : mechBudget m' ≤ mechBudget m := by
+  unfold processToken at h
+  repeat' (first | split at h | simp only at h)
+  all_goals first
+    | (cases h; done)
+    | (injection h with h; subst h; simp [mechBudget]; done)
+
+theorem step_stepMeasure {spec : AbsSpec} (hw : WellBehaved spec) {cfg : Cfg} {t : Nat} {s s' : Eng} {o : Out}
+    (h : step spec cfg t s = some (s', o)) : stepMeasure s' < stepMeasure s := by
+  obtain ⟨phase, acc, version, revisionSent, v2IdentitySent, v2PeerType, mech, pendingSealed, sealed,
+    lastActivity, lastPing, waitingForPong, partialBatch, panicked, gNegotiated, gTokens⟩ := s
+  cases phase <;> simp only [step] at h <;> repeat' (split at h)
+  all_goals first
+    | (cases h; done)
+    | skip
+  all_goals
+    simp only [Option.some.injEq, Prod.mk.injEq, fail, enterReady] at h
+    obtain ⟨rfl, rfl⟩ := h
+  all_goals
+    simp only [stepMeasure, List.length_drop, Gen.GREETING_LENGTH, Gen.V2_GREETING_LENGTH, Gen.SIGNATURE_LENGTH,
+      Gen.REVISION_OFFSET] at *
+  all_goals
+    try have hr := decodeBuffer_rest_lt (by assumption)
+    try have hp := produceToken_budget hw (by assumption)
+    try have hq := processToken_budget (by assumption)
+    try have hb := mechBudget_le (by assumption)
+  all_goals first
+    | omega
+    | (cases revisionSent <;> cases version <;> cases v2IdentitySent <;> simp at * <;> omega)
+
+-- ---------------------------------------------------------------------------------------------
+-- `step`: monotone under appending bytes to the accumulator
+-- ---------------------------------------------------------------------------------------------
+
+section ListHelpers
+variable {α : Type} {a b : List α} {n : Nat} {d : α}
+
+theorem app_len_lt (h : ¬ a.length < n) : ((a ++ b).length < n) = False := by
+  simp only [List.length_append, eq_iff_iff, iff_false]; omega
+
+theorem headD_drop_app (h : n < a.length) : ((a ++ b).drop n).headD d = (a.drop n).headD d := by
+  rw [List.drop_append_of_le_length (by omega)]
+  cases hd : a.drop n with
+  | nil =>
+    have := congrArg List.length hd
+    simp only [List.length_drop, List.length_nil] at this; omega
+  | cons x xs => rfl
+
+theorem headD_app (h : 0 < a.length) : (a ++ b).headD d = a.headD d := by
+  cases a with
+  | nil => simp at h
+  | cons x xs => rfl
+
+theorem headD_drop_app' (h : n < a.length) : (a.drop n ++ b).headD d = (a.drop n).headD d := by
+  rw [← List.drop_append_of_le_length (by omega)]; exact headD_drop_app h
+
+theorem take_app (h : n ≤ a.length) : (a ++ b).take n = a.take n :=
+  List.take_append_of_le_length h
+
+theorem drop_app (h : n ≤ a.length) : (a ++ b).drop n = a.drop n ++ b :=
+  List.drop_append_of_le_length h
+end ListHelpers
+
+set_option maxHeartbeats 400000 in
+theorem step_append {spec : AbsSpec} {cfg : Cfg} {t : Nat} {s s' : Eng} {o : Out}
+    (h : step spec cfg t s = some (s', o)) (b : Bytes) :
+    step spec cfg t { s with acc := s.acc ++ b } = some ({ s' with acc := s'.acc ++ b }, o) := by
+  obtain ⟨phase, acc, version, revisionSent, v2IdentitySent, v2PeerType, mech, pendingSealed, sealed,
+    lastActivity, lastPing, waitingForPong, partialBatch, panicked, gNegotiated, gTokens⟩ := s
+  cases phase <;> simp only [step] at h ⊢ <;> repeat' (split at h)
+  all_goals first
+    | (cases h; done)
+    | skip
+  all_goals
+    simp only [Option.some.injEq, Prod.mk.injEq, fail, enterReady] at h
+    obtain ⟨rfl, rfl⟩ := h
+  all_goals
+    simp only [Gen.GREETING_LENGTH, Gen.V2_GREETING_LENGTH, Gen.SIGNATURE_LENGTH,
+      Gen.REVISION_OFFSET, Gen.V2_SOCKET_TYPE_OFFSET] at *
+  all_goals
+    try have e1 := decodeBuffer_append_frame b (by assumption)
+    try have e2 := decodeBuffer_append_error b (by assumption)
+  all_goals
+    try simp only [*, ↓reduceIte, Bool.false_eq_true]
+  all_goals
+    try simp (disch := omega) only [app_len_lt, headD_drop_app', headD_app, take_app, drop_app]
+  all_goals
+    try simp only [*, ↓reduceIte, Bool.false_eq_true, fail, enterReady]
+
+-- ---------------------------------------------------------------------------------------------
+-- `step`: independent of the clock
+-- ---------------------------------------------------------------------------------------------
+
+def eraseP (p : Eng × Out) : Eng × Out := (p.1.eraseClock, p.2)
+
+theorem step_clock_aux {spec : AbsSpec} {cfg : Cfg} (t t' a : Nat) (s : Eng) (r : Option (Eng × Out))
+    (h : step spec cfg t s = r) :
+    (step spec cfg t' { s with lastActivity := a }).map eraseP = r.map eraseP := by
+  obtain ⟨phase, acc, version, revisionSent, v2IdentitySent, v2PeerType, mech, pendingSealed, sealed,
+    lastActivity, lastPing, waitingForPong, partialBatch, panicked, gNegotiated, gTokens⟩ := s
+  cases phase <;> simp only [step] at h ⊢ <;> repeat' (split at h)
+  all_goals subst h
+  all_goals
+    try simp only [*, ↓reduceIte, Bool.false_eq_true]
+  all_goals first
+    | rfl
+    | skip
+
+-- ---------------------------------------------------------------------------------------------
+-- `step`: invariants, errors, what quiescence means for the accumulator
+-- ---------------------------------------------------------------------------------------------
+
+def PanicInv (s : Eng) : Prop := s.panicked = false ∧ s.partialBatch.length ≤ Gen.MAX_FRAMES_PER_MESSAGE
+
+theorem step_inv {spec : AbsSpec} {cfg : Cfg} (hlim : Gen.MAX_FRAMES_PER_MESSAGE ≤ cfg.frameLimit)
+    {t : Nat} {s s' : Eng} {o : Out}
+    (h : step spec cfg t s = some (s', o)) (hi : PanicInv s) : PanicInv s' := by
+  obtain ⟨phase, acc, version, revisionSent, v2IdentitySent, v2PeerType, mech, pendingSealed, sealed,
+    lastActivity, lastPing, waitingForPong, partialBatch, panicked, gNegotiated, gTokens⟩ := s
+  obtain ⟨hi1, hi2⟩ := hi
+  simp only at hi1 hi2
+  subst hi1
+  cases phase <;> simp only [step] at h <;> repeat' (split at h)
+  all_goals first
+    | (cases h; done)
+    | skip
+  all_goals
+    simp only [Option.some.injEq, Prod.mk.injEq, fail, enterReady] at h
+    obtain ⟨rfl, rfl⟩ := h
+  all_goals first
+    | exact ⟨rfl, hi2⟩
+    | exact ⟨rfl, Nat.zero_le _⟩
+    | (simp [PanicInv, Gen.dataFrameLimitChecked] at *; omega)
+
+theorem step_peerError {spec : AbsSpec} {cfg : Cfg} {t : Nat} {s s' : Eng} {o : Out} {e : ErrClass}
+    (h : step spec cfg t s = some (s', o)) (he : AppAct.peerError e ∈ o.app) : s'.phase = .closed := by
+  obtain ⟨phase, acc, version, revisionSent, v2IdentitySent, v2PeerType, mech, pendingSealed, sealed,
+    lastActivity, lastPing, waitingForPong, partialBatch, panicked, gNegotiated, gTokens⟩ := s
+  cases phase <;> simp only [step] at h <;> repeat' (split at h)
+  all_goals first
+    | (cases h; done)
+    | skip
+  all_goals
+    simp only [Option.some.injEq, Prod.mk.injEq, fail, enterReady] at h
+    obtain ⟨rfl, rfl⟩ := h
+  all_goals first
+    | rfl
+    | (simp at he; done)
+
+theorem step_none_bound {spec : AbsSpec} {cfg : Cfg} {t : Nat} {s : Eng} {m : Nat}
+    (hm : cfg.maxMsgSize = (m : Int))
+    (h : step spec cfg t s = none) (hp : s.panicked = false) (hc : s.phase ≠ .closed)
+    (hs : s.sealed = false) : s.acc.length < max 64 (9 + m) := by
+  obtain ⟨phase, acc, version, revisionSent, v2IdentitySent, v2PeerType, mech, pendingSealed, sealed,
+    lastActivity, lastPing, waitingForPong, partialBatch, panicked, gNegotiated, gTokens⟩ := s
+  simp only at hp hs
+  subst hp hs
+  cases phase <;> simp only [step, hm] at h <;> repeat' (split at h)
+  all_goals first
+    | (cases h; done)
+    | skip
+  all_goals
+    try have hb := needMore_bounded' _ _ (by assumption)
+  all_goals
+    simp only [Gen.GREETING_LENGTH, Gen.V2_GREETING_LENGTH, Gen.SIGNATURE_LENGTH,
+      Gen.REVISION_OFFSET] at *
+  all_goals first
+    | omega
+    | contradiction
+    | exact absurd (by assumption) (decodeBuffer_ne_panic _ _)
+
+-- ---------------------------------------------------------------------------------------------
+-- `run`: fuel, quiescence, appending bytes
+-- ---------------------------------------------------------------------------------------------
+
+-- Out monoid
+theorem Out.append_def (a b : Out) : a ++ b = { net := a.net ++ b.net, app := a.app ++ b.app } := rfl
+@[simp] theorem Out.empty_append (o : Out) : ({} : Out) ++ o = o := by
+  cases o; simp [Out.append_def]
+@[simp] theorem Out.append_empty (o : Out) : o ++ ({} : Out) = o := by
+  cases o; simp [Out.append_def]
+theorem Out.append_assoc (a b c : Out) : a ++ b ++ c = a ++ (b ++ c) := by
+  simp [Out.append_def]
+@[simp] theorem Out.app_append (a b : Out) : (a ++ b).app = a.app ++ b.app := rfl
+
+variable {spec : AbsSpec} {cfg : Cfg}
+
+theorem run_none {t : Nat} {s : Eng} (h : step spec cfg t s = none) (f : Nat) :
+    run spec cfg t f s = (s, {}) := by
+  cases f with
+  | zero => rfl
+  | succ f => simp only [run, h]
+
+theorem run_some {t : Nat} {s s' : Eng} {o : Out} (h : step spec cfg t s = some (s', o)) (f : Nat) :
+    run spec cfg t (f + 1) s = ((run spec cfg t f s').1, o ++ (run spec cfg t f s').2) := by
+  simp only [run, h]
+
+theorem run_fuel (hw : WellBehaved spec) (t : Nat) (f1 : Nat) : ∀ (f2 : Nat) (s : Eng),
+    stepMeasure s ≤ f1 → stepMeasure s ≤ f2 → run spec cfg t f1 s = run spec cfg t f2 s := by
+  induction f1 with
+  | zero =>
+    intro f2 s h1 h2
+    cases hs : step spec cfg t s with
+    | none => rw [run_none hs, run_none hs]
+    | some p => have := step_stepMeasure hw hs; omega
+  | succ f1 ih =>
+    intro f2 s h1 h2
+    cases hs : step spec cfg t s with
+    | none => rw [run_none hs, run_none hs]
+    | some p =>
+      obtain ⟨s', o⟩ := p
+      have := step_stepMeasure hw hs
+      cases f2 with
+      | zero => omega
+      | succ f2 => rw [run_some hs, run_some hs, ih f2 s' (by omega) (by omega)]
+
+/-- `run` with exactly the fuel the measure asks for -/
+def runQ (spec : AbsSpec) (cfg : Cfg) (t : Nat) (s : Eng) : Eng × Out := run spec cfg t (stepMeasure s) s
+
+def addAcc (s : Eng) (b : Bytes) : Eng := { s with acc := s.acc ++ b }
+
+theorem addAcc_nil (s : Eng) : addAcc s [] = s := by
+  cases s; simp [addAcc]
+
+theorem addAcc_addAcc (s : Eng) (a b : Bytes) : addAcc (addAcc s a) b = addAcc s (a ++ b) := by
+  simp [addAcc, List.append_assoc]
+
+theorem stepMeasure_le_fuelFor (s : Eng) : stepMeasure s ≤ fuelFor s := by
+  have := mechBudget_le s.mech
+  unfold stepMeasure fuelFor
+  split <;> (try split) <;> (try split) <;> omega
+
+theorem onNetworkBytes_eq (hw : WellBehaved spec) (t : Nat) (s : Eng) (d : Bytes) :
+    onNetworkBytes spec cfg t s d = runQ spec cfg t (addAcc s d) :=
+  run_fuel hw t _ _ _ (stepMeasure_le_fuelFor _) (Nat.le_refl _)
+
+theorem runQ_none {t : Nat} {s : Eng} (h : step spec cfg t s = none) : runQ spec cfg t s = (s, {}) :=
+  run_none h _
+
+theorem runQ_some (hw : WellBehaved spec) {t : Nat} {s s' : Eng} {o : Out}
+    (h : step spec cfg t s = some (s', o)) :
+    runQ spec cfg t s = ((runQ spec cfg t s').1, o ++ (runQ spec cfg t s').2) := by
+  have hm := step_stepMeasure hw h
+  unfold runQ
+  obtain ⟨k, hk⟩ : ∃ k, stepMeasure s = k + 1 := ⟨stepMeasure s - 1, by omega⟩
+  rw [hk, run_some h, run_fuel hw t k (stepMeasure s') s' (by omega) (Nat.le_refl _)]
+
+/-- strong induction on the measure -/
+theorem stepMeasure_induction {P : Eng → Prop} (h : ∀ s, (∀ s', stepMeasure s' < stepMeasure s → P s') → P s) (s : Eng) : P s := by
+  suffices ∀ n s, stepMeasure s < n → P s from this _ s (Nat.lt_succ_self _)
+  intro n
+  induction n with
+  | zero => intro s hs; omega
+  | succ n ih => intro s hs; exact h s (fun s' hs' => ih s' (by omega))
+
+theorem runQ_quiescent (hw : WellBehaved spec) (t : Nat) (s : Eng) :
+    step spec cfg t (runQ spec cfg t s).1 = none := by
+  induction s using stepMeasure_induction with
+  | h s ih =>
+    cases hs : step spec cfg t s with
+    | none => rw [runQ_none hs]; exact hs
+    | some p =>
+      obtain ⟨s', o⟩ := p
+      rw [runQ_some hw hs]
+      exact ih s' (step_stepMeasure hw hs)
+
+theorem runQ_append (hw : WellBehaved spec) (t : Nat) (b : Bytes) (s : Eng) :
+    runQ spec cfg t (addAcc s b) =
+      ((runQ spec cfg t (addAcc (runQ spec cfg t s).1 b)).1,
+       (runQ spec cfg t s).2 ++ (runQ spec cfg t (addAcc (runQ spec cfg t s).1 b)).2) := by
+  induction s using stepMeasure_induction with
+  | h s ih =>
+    cases hs : step spec cfg t s with
+    | none => rw [runQ_none hs]; simp
+    | some p =>
+      obtain ⟨s', o⟩ := p
+      have hs' : step spec cfg t (addAcc s b) = some (addAcc s' b, o) := step_append hs b
+      rw [runQ_some hw hs', ih s' (step_stepMeasure hw hs), runQ_some hw hs]
+      simp [Out.append_assoc]
+
+-- ---------------------------------------------------------------------------------------------
+-- `run`: clock independence
+-- ---------------------------------------------------------------------------------------------
+
+def ClockEq (s1 s2 : Eng) : Prop := s1.eraseClock = s2.eraseClock
+
+theorem ClockEq.rfl' (s : Eng) : ClockEq s s := rfl
+
+theorem ClockEq.eq_with {s1 s2 : Eng} (h : ClockEq s1 s2) : s2 = { s1 with lastActivity := s2.lastActivity } := by
+  cases s1; cases s2
+  simp only [ClockEq, Eng.eraseClock, Eng.mk.injEq] at h ⊢
+  simp [h]
+
+theorem step_clock {s1 s2 : Eng} (h : ClockEq s1 s2) (t1 t2 : Nat) :
+    (step spec cfg t1 s1).map eraseP = (step spec cfg t2 s2).map eraseP := by
+  rw [h.eq_with]
+  exact (step_clock_aux t1 t2 _ s1 _ rfl).symm
+
+theorem stepMeasure_clock {s1 s2 : Eng} (h : ClockEq s1 s2) : stepMeasure s1 = stepMeasure s2 := by
+  rw [h.eq_with]; rfl
+
+theorem addAcc_clock {s1 s2 : Eng} (h : ClockEq s1 s2) (b : Bytes) : ClockEq (addAcc s1 b) (addAcc s2 b) := by
+  rw [h.eq_with]; rfl
+
+theorem step_none_clock {t : Nat} {s : Eng} (h : step spec cfg t s = none) (t' : Nat) :
+    step spec cfg t' s = none := by
+  have := step_clock (spec := spec) (cfg := cfg) (ClockEq.rfl' s) t t'
+  rw [h] at this
+  simpa using this.symm
+
+theorem quiescent_of_step_none {t : Nat} {s : Eng} (h : step spec cfg t s = none) : Quiescent spec cfg s :=
+  fun t' => step_none_clock h t'
+
+theorem runQ_clock (hw : WellBehaved spec) (t1 t2 : Nat) (s1 : Eng) : ∀ s2, ClockEq s1 s2 →
+    eraseP (runQ spec cfg t1 s1) = eraseP (runQ spec cfg t2 s2) := by
+  induction s1 using stepMeasure_induction with
+  | h s1 ih =>
+    intro s2 h
+    have hc := step_clock (spec := spec) (cfg := cfg) h t1 t2
+    cases hs1 : step spec cfg t1 s1 with
+    | none =>
+      rw [hs1] at hc
+      have hs2 : step spec cfg t2 s2 = none := by simpa using hc.symm
+      rw [runQ_none hs1, runQ_none hs2]
+      simp only [eraseP]; rw [h]
+    | some p1 =>
+      obtain ⟨s1', o1⟩ := p1
+      cases hs2 : step spec cfg t2 s2 with
+      | none => rw [hs1, hs2] at hc; simp at hc
+      | some p2 =>
+        obtain ⟨s2', o2⟩ := p2
+        rw [hs1, hs2] at hc
+        simp only [Option.map_some, Option.some.injEq, eraseP, Prod.mk.injEq] at hc
+        obtain ⟨hc1, hc2⟩ := hc
+        subst hc2
+        have := ih s1' (step_stepMeasure hw hs1) s2' hc1
+        simp only [eraseP, Prod.mk.injEq] at this
+        rw [runQ_some hw hs1, runQ_some hw hs2]
+        simp only [eraseP, this.1, this.2]
+
+theorem onNetworkBytes_clock (hw : WellBehaved spec) (t1 t2 : Nat) {s1 s2 : Eng} (h : ClockEq s1 s2)
+    (d : Bytes) :
+    eraseP (onNetworkBytes spec cfg t1 s1 d) = eraseP (onNetworkBytes spec cfg t2 s2 d) := by
+  rw [onNetworkBytes_eq hw, onNetworkBytes_eq hw]
+  exact runQ_clock hw t1 t2 _ _ (addAcc_clock h d)
+
+-- ---------------------------------------------------------------------------------------------
+-- `onNetworkBytes` / `feedAll`
+-- ---------------------------------------------------------------------------------------------
+
+theorem quiescent_onNetworkBytes (hw : WellBehaved spec) (t : Nat) (s : Eng) (d : Bytes) :
+    Quiescent spec cfg (onNetworkBytes spec cfg t s d).1 := by
+  rw [onNetworkBytes_eq hw]
+  exact quiescent_of_step_none (runQ_quiescent hw t _)
+
+theorem onNetworkBytes_nil (hw : WellBehaved spec) (t : Nat) {s : Eng} (hq : Quiescent spec cfg s) :
+    onNetworkBytes spec cfg t s [] = (s, {}) := by
+  rw [onNetworkBytes_eq hw, addAcc_nil, runQ_none (hq t)]
+
+theorem onNetworkBytes_append (hw : WellBehaved spec) (t : Nat) (s : Eng) (a b : Bytes) :
+    onNetworkBytes spec cfg t s (a ++ b) =
+      ((onNetworkBytes spec cfg t (onNetworkBytes spec cfg t s a).1 b).1,
+       (onNetworkBytes spec cfg t s a).2 ++ (onNetworkBytes spec cfg t (onNetworkBytes spec cfg t s a).1 b).2) := by
+  simp only [onNetworkBytes_eq hw]
+  rw [← addAcc_addAcc, runQ_append hw]
+
+theorem feedAll_same_clock (hw : WellBehaved spec) (t : Nat) (chunks : List Bytes) :
+    ∀ s, Quiescent spec cfg s →
+    feedAll spec cfg s (chunks.map fun c => (t, c)) = onNetworkBytes spec cfg t s chunks.flatten := by
+  induction chunks with
+  | nil => intro s hq; simp only [List.map_nil, feedAll, List.flatten_nil]; rw [onNetworkBytes_nil hw t hq]
+  | cons c cs ih =>
+    intro s hq
+    simp only [List.map_cons, feedAll, List.flatten_cons]
+    rw [ih _ (quiescent_onNetworkBytes hw t s c), onNetworkBytes_append hw]
+
+theorem feedAll_clock (hw : WellBehaved spec) (t : Nat) (reads : List (Nat × Bytes)) :
+    ∀ s1 s2, ClockEq s1 s2 →
+    eraseP (feedAll spec cfg s1 reads) = eraseP (feedAll spec cfg s2 (reads.map fun r => (t, r.2))) := by
+  induction reads with
+  | nil => intro s1 s2 h; simp only [List.map_nil, feedAll, eraseP]; rw [h]
+  | cons r rs ih =>
+    intro s1 s2 h
+    obtain ⟨t0, d⟩ := r
+    have h1 := onNetworkBytes_clock (cfg := cfg) hw t0 t h d
+    simp only [eraseP, Prod.mk.injEq] at h1
+    have h2 := ih _ _ h1.1
+    simp only [eraseP, Prod.mk.injEq] at h2
+    simp only [List.map_cons, feedAll, eraseP, h1.2, h2.1, h2.2]
+
+theorem feedAll_eraseP (hw : WellBehaved spec) (t : Nat) {s : Eng} (hq : Quiescent spec cfg s)
+    (reads : List (Nat × Bytes)) :
+    eraseP (feedAll spec cfg s reads) = eraseP (onNetworkBytes spec cfg t s (reads.map (·.2)).flatten) := by
+  rw [feedAll_clock hw t reads s s rfl, ← feedAll_same_clock hw t _ s hq, List.map_map]
+  rfl
+
+theorem quiescent_feedAll (hw : WellBehaved spec) (reads : List (Nat × Bytes)) :
+    ∀ s, Quiescent spec cfg s → Quiescent spec cfg (feedAll spec cfg s reads).1 := by
+  induction reads with
+  | nil => intro s hq; exact hq
+  | cons r rs ih =>
+    intro s _
+    simp only [feedAll]
+    exact ih _ (quiescent_onNetworkBytes hw _ _ _)
+
+-- ---------------------------------------------------------------------------------------------
+-- invariants and errors along `run` / `feedAll`
+-- ---------------------------------------------------------------------------------------------
+
+theorem step_closed {t : Nat} {s : Eng} (h : s.phase = .closed) : step spec cfg t s = none := by
+  unfold step
+  split
+  · rfl
+  · rw [h]
+
+theorem run_closed {t : Nat} {s : Eng} (h : s.phase = .closed) (f : Nat) :
+    run spec cfg t f s = (s, {}) := run_none (step_closed h) f
+
+theorem run_inv (hlim : Gen.MAX_FRAMES_PER_MESSAGE ≤ cfg.frameLimit) (t : Nat) (f : Nat) :
+    ∀ s, PanicInv s → PanicInv (run spec cfg t f s).1 := by
+  induction f with
+  | zero => intro s hi; exact hi
+  | succ f ih =>
+    intro s hi
+    cases hs : step spec cfg t s with
+    | none => rw [run_none hs]; exact hi
+    | some p =>
+      obtain ⟨s', o⟩ := p
+      rw [run_some hs]
+      exact ih s' (step_inv hlim hs hi)
+
+theorem onNetworkBytes_inv (hlim : Gen.MAX_FRAMES_PER_MESSAGE ≤ cfg.frameLimit) (t : Nat) {s : Eng}
+    (hi : PanicInv s) (d : Bytes) : PanicInv (onNetworkBytes spec cfg t s d).1 :=
+  run_inv hlim t _ _ hi
+
+theorem feedAll_inv (hlim : Gen.MAX_FRAMES_PER_MESSAGE ≤ cfg.frameLimit) (reads : List (Nat × Bytes)) :
+    ∀ s, PanicInv s → PanicInv (feedAll spec cfg s reads).1 := by
+  induction reads with
+  | nil => intro s hi; exact hi
+  | cons r rs ih =>
+    intro s hi
+    simp only [feedAll]
+    exact ih _ (onNetworkBytes_inv hlim _ hi _)
+
+theorem PanicInv_init : PanicInv Eng.init := ⟨rfl, Nat.zero_le _⟩
+
+theorem run_peerError {t : Nat} {e : ErrClass} (f : Nat) : ∀ s,
+    AppAct.peerError e ∈ (run spec cfg t f s).2.app → (run spec cfg t f s).1.phase = .closed := by
+  induction f with
+  | zero => intro s h; simp [run] at h
+  | succ f ih =>
+    intro s h
+    cases hs : step spec cfg t s with
+    | none => rw [run_none hs] at h; simp at h
+    | some p =>
+      obtain ⟨s', o⟩ := p
+      rw [run_some hs] at h ⊢
+      simp only [Out.app_append, List.mem_append] at h
+      rcases h with h | h
+      · rw [run_closed (step_peerError hs h)]
+        exact step_peerError hs h
+      · exact ih s' h
+
+theorem quiescent_init' : Quiescent spec cfg Eng.init := by
+  intro t
+  simp [step, Eng.init, Gen.SIGNATURE_LENGTH]
+
+/-- `C07.accumulator_bounded` with the hypothesis it needs (the one `engine_never_panics` has): without
+`hlim` the model engine can reach `panicked = true`, after which nothing is ever consumed. -/
+theorem accumulator_bounded_of_frameLimit (hw : WellBehaved spec) (m : Nat)
+    (hm : cfg.maxMsgSize = (m : Int)) (hlim : Gen.MAX_FRAMES_PER_MESSAGE ≤ cfg.frameLimit)
+    (reads : List (Nat × Bytes)) :
+    let s := (feedAll spec cfg Eng.init reads).1
+    s.phase ≠ .closed → s.sealed = false → s.acc.length < max 64 (9 + m) := by
+  intro s hc hs
+  have hq : Quiescent spec cfg s := quiescent_feedAll hw reads _ quiescent_init'
+  have hi : PanicInv s := feedAll_inv hlim reads _ PanicInv_init
+  exact step_none_bound hm (hq 0) hi.1 hc hs
+
+-- ---------------------------------------------------------------------------------------------
+-- `C07.accumulator_bounded` needs the `frameLimit` hypothesis: a concrete counterexample without it
+-- (frameLimit = 0: the first data frame makes the model engine "panic", then nothing is consumed)
+-- ---------------------------------------------------------------------------------------------
+
+def accCeCfg : Cfg := { frameLimit := 0, maxMsgSize := 30 }
+def accCeBytes : Bytes :=
+  Gen.SIGNATURE ++ [3, 0] ++ Gen.mechName_null ++ [0] ++ List.replicate 31 0
+    ++ readyBytes { sockType := .ROUTER } ++ [0, 0] ++ List.replicate 64 0
+
+theorem wb_unavailable : WellBehaved AbsSpec.unavailable := fun _ _ _ _ _ => rfl
+
+set_option maxRecDepth 100000 in
+theorem accCe_fact :
+    let s := (feedAll AbsSpec.unavailable accCeCfg Eng.init [(0, accCeBytes)]).1
+    s.phase = .data ∧ s.sealed = false ∧ s.acc.length = 64 := by
+  decide
+
+/-- `C07.accumulator_bounded` is false as stated (no `frameLimit` hypothesis). -/
+theorem accumulator_bounded_false :
+    ¬ (∀ (spec : AbsSpec) (_ : WellBehaved spec) (cfg : Cfg) (m : Nat)
+        (_ : cfg.maxMsgSize = (m : Int)) (reads : List (Nat × Bytes)),
+        let s := (feedAll spec cfg Eng.init reads).1
+        s.phase ≠ .closed → s.sealed = false → s.acc.length < max 64 (9 + m)) := by
+  intro h
+  have h1 := h AbsSpec.unavailable wb_unavailable accCeCfg 30 rfl [(0, accCeBytes)]
+  obtain ⟨h2, h3, h4⟩ := accCe_fact
+  simp only at h1 h2 h3 h4
+  have := h1 (by rw [h2]; decide) h3
+  rw [h4] at this
+  omega
 
 end Rzmq
